@@ -401,15 +401,30 @@ func shapeGenUint(rt *rapid.T, lbl string, bits int) uint64 {
 	return rapid.OneOf(rapid.SampledFrom([]uint64{0, 1, hi, hi - 1, hi/2 + 1, hi / 2}), rapid.Uint64Range(0, hi)).Draw(rt, lbl)
 }
 
-func shapeGenInto(rt *rapid.T, v reflect.Value, lbl string) {
+// shapeGenInto fills v. With compact set (inside a long run), elements are
+// chosen to be short in JSON: small integers, empty strings and slices, so
+// that the binary encoding gets longer than the JSON document.
+func shapeGenInto(rt *rapid.T, v reflect.Value, lbl string, compact bool) {
 	switch v.Kind() {
 	case reflect.Bool:
 		v.SetBool(rapid.Bool().Draw(rt, lbl))
 	case reflect.Int8, reflect.Int16, reflect.Int32, reflect.Int64:
+		if compact || rapid.Bool().Draw(rt, lbl+".small") {
+			v.SetInt(rapid.SampledFrom([]int64{0, 1, 7, -1}).Draw(rt, lbl))
+			return
+		}
 		v.SetInt(shapeGenInt(rt, lbl, v.Type().Bits()))
 	case reflect.Uint8, reflect.Uint16, reflect.Uint32, reflect.Uint64:
+		if compact || rapid.Bool().Draw(rt, lbl+".small") {
+			v.SetUint(rapid.SampledFrom([]uint64{0, 1, 7}).Draw(rt, lbl))
+			return
+		}
 		v.SetUint(shapeGenUint(rt, lbl, v.Type().Bits()))
 	case reflect.String:
+		if compact {
+			v.SetString(rapid.SampledFrom([]string{"", "", "a"}).Draw(rt, lbl))
+			return
+		}
 		// invalid UTF-8 (lossy JSON) is kept rare: a value has many strings
 		if c30Rare(rt, lbl+".raw", 6) {
 			v.SetString(string(rapid.SliceOfN(rapid.Byte(), 1, 6).Draw(rt, lbl)))
@@ -427,11 +442,15 @@ func shapeGenInto(rt *rapid.T, v reflect.Value, lbl string) {
 			return
 		}
 		for i := 0; i < v.Len(); i++ {
-			shapeGenInto(rt, v.Index(i), fmt.Sprintf("%s[%d]", lbl, i))
+			shapeGenInto(rt, v.Index(i), fmt.Sprintf("%s[%d]", lbl, i), compact)
 		}
 	case reflect.Slice:
 		if v.Type().Elem().Kind() == reflect.Uint8 {
-			b := c29Bytes([]int{0, 0, 1, 2, 3, 32, 33, 64, 300}).Draw(rt, lbl)
+			lens := []int{0, 0, 1, 2, 3, 32, 33, 64, 300}
+			if compact {
+				lens = []int{0, 0, 0, 0, 0, 0, 0, 1}
+			}
+			b := c29Bytes(lens).Draw(rt, lbl)
 			s := reflect.MakeSlice(v.Type(), len(b), len(b))
 			for i := range b {
 				s.Index(i).SetUint(uint64(b[i]))
@@ -439,10 +458,26 @@ func shapeGenInto(rt *rapid.T, v reflect.Value, lbl string) {
 			v.Set(s)
 			return
 		}
+		// 0..3 elements mostly; a tail of long runs (4..40) of compact elements
 		n := rapid.SampledFrom([]int{0, 1, 2, 3, 1, 2}).Draw(rt, lbl+".len")
+		elemCompact := compact
+		if compact {
+			n = rapid.SampledFrom([]int{0, 0, 0, 1, 2}).Draw(rt, lbl+".clen")
+		} else if c30Rare(rt, lbl+".run", 2) {
+			// fair bits for the length: rapid's integer ranges favour small values
+			n = 4
+			for _, b := range rapid.SliceOfN(rapid.Bool(), 2, 2).Draw(rt, lbl+".runlen8") {
+				n += 12
+				if !b {
+					n -= 12
+				}
+			}
+			n += rapid.IntRange(0, 12).Draw(rt, lbl+".runlen")
+			elemCompact = true
+		}
 		s := reflect.MakeSlice(v.Type(), n, n)
 		for i := 0; i < n; i++ {
-			shapeGenInto(rt, s.Index(i), fmt.Sprintf("%s[%d]", lbl, i))
+			shapeGenInto(rt, s.Index(i), fmt.Sprintf("%s[%d]", lbl, i), elemCompact)
 		}
 		v.Set(s)
 	case reflect.Struct:
@@ -451,7 +486,7 @@ func shapeGenInto(rt *rapid.T, v reflect.Value, lbl string) {
 			if f.Tag.Get("serialize") != "true" {
 				continue
 			}
-			shapeGenInto(rt, v.Field(i), lbl+"."+f.Name)
+			shapeGenInto(rt, v.Field(i), lbl+"."+f.Name, compact)
 		}
 	default:
 		panic("harness: unsupported kind " + v.Kind().String())
@@ -514,7 +549,7 @@ func c29ShapeGen(rt *rapid.T) c29ShapeCase {
 	}
 	s := shapeList[idx%len(shapeList)]
 	pv := reflect.New(s.typ)
-	shapeGenInto(rt, pv.Elem(), s.name)
+	shapeGenInto(rt, pv.Elem(), s.name, false)
 	return c29ShapeCase{Shape: s.name, Output: s.output, Enc: pv.Interface().(shapeTyped).Bytes()}
 }
 
@@ -573,6 +608,10 @@ func c29ShapeRun(c c29ShapeCase, st *vstat.Stats) error {
 		labels = append(labels, "json-lossy-string")
 		st.Assumption("values whose native JSON is lossy (invalid UTF-8 inside a string field) are only checked in the decode direction")
 	}
+	if !c.Output && len(native) > len(doc) {
+		// only actions are encoded from JSON (dynamic.Marshal)
+		labels = append(labels, "binary-longer-than-json")
+	}
 	nt := s.multi && nonZero
 	if nt {
 		labels = append(labels, "multi-dimensional-nonzero")
@@ -622,7 +661,7 @@ func shapeABIHint(a abi.ABI, name string) string {
 }
 
 func TestC29Shapes(t *testing.T) {
-	st := vstat.New(t, "C29", "second stage, beyond the four shipped types: 15 action and 2 output types a VM author can register (serialize tags, GetTypeID, Bytes/unmarshaller over codec.LinearCodec like MorpheusVM's Transfer, own codec.TypeParser registries, ABI from abi.NewABI over them and passed through JSON) covering the ABI type grammar: int8..int64, uint8..uint64, bool, string, Address, []byte, [N]uint8, [N]T, [][N]T, [N][]T, [N][M]T with N!=M, [N][M][K]T, [][]T, [][][]T, mixed slice/array nests, nested structs, []struct, [][]struct, [N]struct, [][N]struct, [N][]struct, [N][M]struct, an embedded struct, fields without json tags, named non-struct field types; values generated by a reflect-driven rapid generator (boundary-biased integers per width, JSON-hostile strings, 0..3 elements per slice level, byte strings 0..300), normalised by one native encode/decode; same oracle as the first stage; non-trivial = a type with a field of >=2 array/slice dimensions and a non-zero value; distinct by type and encoding")
+	st := vstat.New(t, "C29", "second stage, beyond the four shipped types: 15 action and 2 output types a VM author can register (serialize tags, GetTypeID, Bytes/unmarshaller over codec.LinearCodec like MorpheusVM's Transfer, own codec.TypeParser registries, ABI from abi.NewABI over them and passed through JSON) covering the ABI type grammar: int8..int64, uint8..uint64, bool, string, Address, []byte, [N]uint8, [N]T, [][N]T, [N][]T, [N][M]T with N!=M, [N][M][K]T, [][]T, [][][]T, mixed slice/array nests, nested structs, []struct, [][]struct, [N]struct, [][N]struct, [N][]struct, [N][M]struct, an embedded struct, fields without json tags, named non-struct field types; values generated by a reflect-driven rapid generator (boundary-biased integers per width, JSON-hostile strings, small 0/1/7 integers, 0..3 elements per slice level with a tail of runs of 4..40 compact elements (small integers, empty strings and inner slices: binary longer than JSON), byte strings 0..300), normalised by one native encode/decode; same oracle as the first stage; non-trivial = a type with a field of >=2 array/slice dimensions and a non-zero value; distinct by type and encoding")
 	st.Assumption("this stage quantifies over types a VM author can register with the documented mechanism, not only over the four types the pinned tree registers; the type family is fixed (harness-defined), the values are generated")
 	rapid.Check(t, func(rt *rapid.T) {
 		c := c29ShapeGen(rt)
